@@ -123,6 +123,52 @@ pub fn optimize_sources(
   sources
 }
 
+#[cfg(samlang_verif)]
+/// Verification hook H3 (guard: --cfg samlang_verif): run exactly one named pass, once, over a
+/// whole program, so that behaviour preservation can be checked pass by pass.
+pub mod verif_hooks {
+  pub const PASSES: [&str; 8] = [
+    "ccp",
+    "scalar_replacement",
+    "loop",
+    "cse",
+    "lvn",
+    "dce",
+    "inlining",
+    "unused_name_elimination",
+  ];
+
+  pub fn run_single_pass(
+    heap: &mut samlang_heap::Heap,
+    mut sources: samlang_ast::mir::Sources,
+    pass: &str,
+  ) -> samlang_ast::mir::Sources {
+    match pass {
+      "inlining" => {
+        let functions = std::mem::take(&mut sources.functions);
+        sources.functions = super::inlining::optimize_functions(functions, heap);
+      }
+      "unused_name_elimination" => super::unused_name_elimination::optimize_sources(&mut sources),
+      _ => {
+        let counter = heap.create_temp_counter();
+        for f in sources.functions.iter_mut() {
+          match pass {
+            "ccp" => super::conditional_constant_propagation::optimize_function(f),
+            "scalar_replacement" => super::scalar_replacement::optimize_function(f),
+            "loop" => super::loop_optimizations::optimize_function(f, &counter),
+            "cse" => super::common_subexpression_elimination::optimize_function(f, &counter),
+            "lvn" => super::local_value_numbering::optimize_function(f),
+            "dce" => super::dead_code_elimination::optimize_function(f),
+            other => panic!("unknown pass {other}"),
+          }
+        }
+        heap.sync_temp_counter(&counter);
+      }
+    }
+    sources
+  }
+}
+
 #[cfg(test)]
 mod tests {
   use pretty_assertions::assert_eq;
